@@ -163,21 +163,21 @@ theorem C09_counts {α : Type} (flags : List Nat) (chi2 : List α) (table : List
 /-! ### Non-vacuity: concrete tables, fits and dictionaries meet the hypotheses -/
 
 /-- a prepared (stripped, name-sorted) table with one numeric column -/
-def exTab : List (String × List Rat) := [("ma", [1]), ("mb", [2]), ("mc", [3]), ("md", [4])]
+def c09ExTab : List (String × List Rat) := [("ma", [1]), ("mb", [2]), ("mc", [3]), ("md", [4])]
 /-- three of the four models selected, in rank order (not name order) -/
-def exFit : List String := ["mc", "ma", "md"]
+def c09ExFit : List String := ["mc", "ma", "md"]
 /-- one additional parameter, keyed by model name -/
-def exAdd : List (List (String × Rat)) := [[("mb", 20), ("md", 40), ("ma", 10), ("mc", 30)]]
+def c09ExAdd : List (List (String × Rat)) := [[("mb", 20), ("md", 40), ("ma", 10), ("mc", 30)]]
 
 -- hypotheses of `C09_liveness`
-example : (exTab.map (·.1)).Pairwise (fun a b => strLe a b = true) ∧ (exTab.map (·.1)).Nodup ∧
-    exFit.Nodup ∧ (∀ X ∈ exFit, X ∈ exTab.map (·.1)) ∧
-    (∀ d ∈ exAdd, ∀ X ∈ exFit, ∃ v, d.lookup (strip X) = some v) := by
+example : (c09ExTab.map (·.1)).Pairwise (fun a b => strLe a b = true) ∧ (c09ExTab.map (·.1)).Nodup ∧
+    c09ExFit.Nodup ∧ (∀ X ∈ c09ExFit, X ∈ c09ExTab.map (·.1)) ∧
+    (∀ d ∈ c09ExAdd, ∀ X ∈ c09ExFit, ∃ v, d.lookup (strip X) = some v) := by
   refine ⟨by decide, by decide, by decide, by decide, ?_⟩
   intro d hd X hX
-  simp only [exAdd, List.mem_cons, List.not_mem_nil, or_false] at hd
+  simp only [c09ExAdd, List.mem_cons, List.not_mem_nil, or_false] at hd
   subst hd
-  simp only [exFit, List.mem_cons, List.not_mem_nil, or_false] at hX
+  simp only [c09ExFit, List.mem_cons, List.not_mem_nil, or_false] at hX
   rcases hX with rfl | rfl | rfl
   · exact ⟨30, by decide⟩
   · exact ⟨10, by decide⟩
@@ -185,18 +185,18 @@ example : (exTab.map (·.1)).Pairwise (fun a b => strLe a b = true) ∧ (exTab.m
 
 -- hypothesis of `C09_safety` / `C09_safety_nodup` / `C09_counts`: it does return (and with no
 -- dictionaries at all, and with nothing selected)
-example : ∃ r, filterTableAdd exTab exFit ([] : List (List (String × Rat))) = .ok r :=
-  C09_liveness exTab exFit [] (by decide) (by decide) (by decide) (by decide) (by simp)
-example : ∃ r, filterTableAdd exTab [] ([] : List (List (String × Rat))) = .ok r :=
-  C09_liveness exTab [] [] (by decide) (by decide) (by decide) (by simp) (by simp)
+example : ∃ r, filterTableAdd c09ExTab c09ExFit ([] : List (List (String × Rat))) = .ok r :=
+  C09_liveness c09ExTab c09ExFit [] (by decide) (by decide) (by decide) (by decide) (by simp)
+example : ∃ r, filterTableAdd c09ExTab [] ([] : List (List (String × Rat))) = .ok r :=
+  C09_liveness c09ExTab [] [] (by decide) (by decide) (by decide) (by simp) (by simp)
 
 /-- two row orders of the same parameter file, names padded with blanks -/
-def exRows : List (String × List Rat) := [("mc ", [3]), ("ma", [1]), ("md  ", [4]), ("mb", [2])]
-def exRows' : List (String × List Rat) := [("mb", [2]), ("md  ", [4]), ("mc ", [3]), ("ma", [1])]
+def c09ExRows : List (String × List Rat) := [("mc ", [3]), ("ma", [1]), ("md  ", [4]), ("mb", [2])]
+def c09ExRows' : List (String × List Rat) := [("mb", [2]), ("md  ", [4]), ("mc ", [3]), ("ma", [1])]
 
 -- hypotheses of `C09_any_order`
-example : exRows.Perm exRows' ∧ (exRows.map (fun r => strip r.1)).Nodup ∧ exFit.Nodup ∧
-    (∀ X ∈ exFit, X ∈ exRows.map (fun r => strip r.1)) := by
+example : c09ExRows.Perm c09ExRows' ∧ (c09ExRows.map (fun r => strip r.1)).Nodup ∧ c09ExFit.Nodup ∧
+    (∀ X ∈ c09ExFit, X ∈ c09ExRows.map (fun r => strip r.1)) := by
   refine ⟨by decide, by decide, by decide, by decide⟩
 
 -- `C09_ranges` on a concrete column; `C09_counts` on a concrete flag vector
